@@ -36,3 +36,4 @@ fn c08_get_datetime_total() {
     let _ = get_datetime(d, Duration::minutes(m as i64));
 }
 
+
